@@ -135,6 +135,10 @@ def make_run(cfg):
                         return ("ok", proxy.raiser(token))
                     if kind == "oneway":
                         return ("ok", proxy.ow(token))
+                    if kind == "oneway-blob":      # a oneway call whose only argument is a blob that stays serialized
+                        return ("ok", proxy.ow_blob(client.SerializedBlob(token, [token, 1])))
+                    if kind == "blob":
+                        return ("ok", proxy.echo_blob(client.SerializedBlob(token, [token, 1])))
                     if kind == "batch":
                         b = client.BatchProxy(proxy)
                         b.echo(token + "a")
@@ -216,15 +220,15 @@ def make_run(cfg):
                     continue
                 kind, token, r, inb, read_after = rec
                 execd = tgt.executed.get(token, 0) if kind not in ("batch", "attr", "rebatch") else None
-                own_values = {"normal": token, "oneway": None, "batch": [token + "a", token + "b"], "rebatch": [None, token + "b"], "attr": "attr-value", "stream": token + "-0"}
+                own_values = {"normal": token, "blob": token, "oneway": None, "oneway-blob": None, "batch": [token + "a", token + "b"], "rebatch": [None, token + "b"], "attr": "attr-value", "stream": token + "-0"}
                 if r[0] == "ok":
                     if kind == "raiser":
                         V("foreign-reply-returned|raiser-returned", "raiser(%s) returned %r" % (token, r[1]))
                     elif r[1] != own_values[kind]:
                         V("foreign-reply-returned|%s" % kind, "%s(%s) returned %s, its own answer is %s" % (kind, token, show(r[1]), show(own_values[kind])))
-                    if kind in ("normal", "stream") and not (1 <= execd <= 1 + retries):
+                    if kind in ("normal", "stream", "blob") and not (1 <= execd <= 1 + retries):
                         V("returned-call-executed-%d-times|retries=%d" % (execd, retries), "%s(%s)" % (kind, token))
-                    if kind == "oneway":
+                    if kind in ("oneway", "oneway-blob"):
                         if execd > 1:
                             V("oneway-executed-%d-times" % execd, token)
                         if inb is not None and read_after is not None and read_after != inb:
@@ -265,8 +269,8 @@ def configs(quick):
         h3 = sel3
     else:
         h3 = [list(p) for p in itertools.product(["normal", "raiser", "oneway", "stream"], repeat=3)]
-    hb = [["rebatch"], ["rebatch", "normal"], ["oneway", "rebatch"]] + ([] if quick else [["rebatch", "rebatch"], ["normal", "rebatch"], ["batch", "rebatch"], ["rebatch", "stream"]])
-    for h in h1 + hb[:1] + h2 + hb[1:] + h3:
+    hb = [["rebatch"], ["oneway-blob"], ["blob"], ["oneway-blob", "normal"], ["blob", "oneway-blob"], ["rebatch", "normal"], ["oneway", "rebatch"]] + ([] if quick else [["rebatch", "rebatch"], ["normal", "rebatch"], ["batch", "rebatch"], ["rebatch", "stream"]])
+    for h in h1 + hb[:3] + h2 + hb[3:] + h3:
         for retries in (0, 1, 2):
             for seq0 in (0, 0xFFFE):
                 if quick:
@@ -284,7 +288,7 @@ def configs(quick):
                     p = 1
                 out.append({"history": h, "retries": retries, "seq0": seq0, "server": "multiplex", "p": p, "r": 3 if quick or len(h) < 3 else 2, "all_cuts": not quick, "horizon": 4000})
     # the thread-pool server: more threads, smaller budgets
-    for h in h1 + hb[:1] + ([] if quick else [x for x in h2 if not any(k in ("batch", "attr") for k in x)]):
+    for h in h1 + hb[:3] + ([] if quick else [x for x in h2 if not any(k in ("batch", "attr") for k in x)]):
         for retries in ((0, 1) if quick else (0, 1, 2)):
             if not quick and len(h) == 2 and retries == 2:
                 continue
